@@ -798,3 +798,16 @@ for _k in sorted(CHECKS):
                            "bit position (PACKKEY); no text already "
                            "formatted is handed to a callee that formats "
                            "it again (REFORMAT).")
+# round 15 (exceptional and boundary situations)
+for _k in ("C07", "C14", "C20"):
+    CHECKS[_k]["text"] += (" No field of a struct of sark.struct runs into "
+                           "the next one or past the end of its struct "
+                           "(C14-R6 struct overlap).")
+for _k in sorted(CHECKS):
+    CHECKS[_k]["text"] += (" No parameter whose default is a mutable object "
+                           "made at definition time is handed back or "
+                           "stored on a path that has not re-bound it "
+                           "(DEFAULTLEAK).")
+    CHECKS[_k]["technique"] += (
+        "; relational interval proofs join with the one-step transitive "
+        "consequences of each side as candidates")
